@@ -5,12 +5,13 @@ import math
 from ..runner import Cell
 from ..driver import Finite, assume
 from .common import *  # noqa: F401,F403
-from .tracer_capture import capture_forward, capture_arc_like
+from .tracer_capture import capture_forward, capture_arc_like, capture_spline, tracer_np
 from .c01 import frame_condition
 
 PROPERTY_ID = "C10"
 FUNCTIONS = [
-    "PathTracer.thread", "PathTracer.circle", "PathTracer.spiral", "PathTracer.polyline",
+    "PathTracer.thread", "PathTracer.circle", "PathTracer.spline (control points)",
+    "PathTracer.arc_radius (centre selection)", "PathTracer.spiral", "PathTracer.polyline",
     "PathTracer.arc (geometry up to the radius check)", "PathTracer.helix (geometry up to the radii)",
     "Direction.enforce", "Direction.full_turn", "GCodeCore.to_absolute/to_absolute_list/to_distance_mode",
 ]
@@ -22,7 +23,12 @@ BOUNDS = ("ONLY the plain-Python geometry handed to the sampler is decided; vert
           "start and target in XY and max(1, floor(|dz|/pitch)) turns; circle hands arc a target "
           "equal to the start; spiral hands helix the start as centre; arc/helix compute centre = "
           "start + given offset and the absolute target; polyline visits exactly the given points "
-          "(one G1 each, machine positions compared). Direction.enforce: for every angle in "
+          "(one G1 each, machine positions compared); spline fits through the start followed by "
+          "every given point in order with only consecutive duplicates removed (2-3 symbolic "
+          "points); arc_radius on a 3-4-5 configuration scaled by a symbolic k (chord along an axis, "
+          "numpy sqrt/hypot stubbed with the values the configuration implies, the sqrt argument "
+          "checked) hands arc() a centre at distance |r| on the side that gives the minor arc for "
+          "r>0 and the major arc for r<0, for both directions. Direction.enforce: for every angle in "
           "(-2pi, 2pi) the result has the sign of the direction, |result| <= 2pi and differs from "
           "the input by 0 or one full turn.")
 ASSUMPTIONS = [
@@ -214,6 +220,134 @@ def _make_polyline(rel, npoints):
     return h
 
 
+def _make_spline(rel, npts):
+    """Control points handed to the spline fit: the start followed by the given points, in order,
+    with only CONSECUTIVE duplicates removed (every given point must be passed, in order)."""
+    def core(o, pts_abs):
+        pre = mkpre(pos=o, relative=rel)
+        g, rec = prepare(pre)
+        cur = o
+        given = []
+        for p in pts_abs:
+            given.append(tuple(p[i] - cur[i] for i in range(2)) if rel else p)
+            cur = (p[0], p[1], o[2])
+        calls = capture_spline(g, lambda g: g.trace.spline(given))
+        want = [o]
+        for p in pts_abs:
+            q = (p[0], p[1], o[2])
+            if not (q[0] == want[-1][0] and q[1] == want[-1][1]):
+                want.append(q)
+        if len(want) < 2:
+            if calls and calls[0][0] != "rejected":
+                return V("spline-accepted-a-single-point", lambda: f"{calls!r}")
+            reached("captured")
+            return None
+        if len(calls) != 3:
+            return V("spline-controls-not-captured", lambda: f"{calls!r} for {pts_abs!r} from {o!r}")
+        for axis, (thetas, values) in enumerate(calls):
+            if len(values) != len(want):
+                return V("spline-drops-or-adds-control-points",
+                         lambda: f"controls {[c[1] for c in calls]!r}, expected {want!r}")
+            for v, w in zip(values, want):
+                if not num_eq(v, w[axis]):
+                    return V("spline-control-point-wrong",
+                             lambda: f"controls {[c[1] for c in calls]!r}, expected {want!r}")
+        reached("captured")
+        return None
+
+    if npts == 2:
+        def h(ox: Finite, oy: Finite, ax: Finite, ay: Finite, bx: Finite, by: Finite):
+            _box(ox, oy, ax, ay, bx, by)
+            return core((ox, oy, 1.0), [(ax, ay), (bx, by)])
+    else:
+        def h(ox: Finite, oy: Finite, ax: Finite, ay: Finite, bx: Finite, by: Finite, cx: Finite,
+              cy: Finite):
+            _box(ox, oy, ax, ay, bx, by, cx, cy)
+            return core((ox, oy, 1.0), [(ax, ay), (bx, by), (cx, cy)])
+    return h
+
+
+class _RadiusNp:
+    """numpy for tracer.arc_radius on a 3-4-5 configuration scaled by a symbolic k."""
+
+    def __init__(self, k):
+        self.k = k
+        self.sqrt_args = []
+
+    def hypot(self, a, b):
+        if b == 0:
+            return a if a >= 0 else -a
+        if a == 0:
+            return b if b >= 0 else -b
+        raise NotImplementedError("hypot on a non axis-aligned chord")
+
+    def sqrt(self, x):
+        self.sqrt_args.append(x)
+        return 4 * self.k
+
+    def copysign(self, a, b):
+        return (a if a >= 0 else -a) if b >= 0 else (-a if a >= 0 else a)
+
+    def __getattr__(self, name):
+        import numpy
+        return getattr(numpy, name)
+
+
+def _make_arc_radius(direction, positive, rel, axis):
+    """arc_radius hands arc() a centre at distance |radius| from start and target, on the side
+    that gives the minor arc for a positive and the major arc for a negative radius."""
+    def h(ox: Finite, oy: Finite, k: Finite):
+        _box(ox, oy)
+        assume(k > 0)
+        assume(k <= 100)
+        o = (ox, oy, 2.0)
+        pre = mkpre(pos=o, relative=rel)
+        g, rec = prepare(pre)
+        g.set_direction(direction)
+        chord = {"+x": (6 * k, 0), "-x": (-6 * k, 0), "+y": (0, 6 * k), "-y": (0, -6 * k)}[axis]
+        t_abs = (ox + chord[0], oy + chord[1])
+        target = chord if rel else t_abs
+        radius = 5 * k if positive else -5 * k
+        npx = _RadiusNp(k)
+        if MODE.symbolic:
+            with tracer_np(npx):
+                calls = capture_forward(g, "arc", lambda g: g.trace.arc_radius(target, radius))
+        else:
+            calls = capture_forward(g, "arc", lambda g: g.trace.arc_radius(target, radius))
+        if len(calls) != 1:
+            return V("arc_radius-did-not-call-arc-once", lambda: f"{calls!r}")
+        if MODE.symbolic:
+            if len(npx.sqrt_args) != 1:
+                return V("arc_radius-unexpected-sqrt-calls", lambda: f"{npx.sqrt_args!r}")
+            d = npx.sqrt_args[0] - 16 * k * k
+            if d > 1e-9 or -d > 1e-9:
+                return V("arc_radius-height-formula-wrong",
+                         lambda: f"sqrt argument {npx.sqrt_args[0]!r}, expected r^2-(d/2)^2 = {16 * k * k!r}")
+        a, kw = calls[0]
+        c_rel = a[1]
+        cx, cy = c_rel[0], c_rel[1]
+        # minor arc <=> centre to the right of the travel direction for clockwise, left for counter
+        clockwise = direction == "clockwise"
+        minor = positive
+        right = (clockwise == minor)
+        # unit normal pointing right of the chord direction (dx,dy) is (dy,-dx)/|d|
+        ux, uy = chord[0] / 6, chord[1] / 6          # = k * unit chord
+        nx, ny = (uy, -ux) if right else (-uy, ux)
+        want = (chord[0] / 2 + 4 * nx, chord[1] / 2 + 4 * ny)
+        tol = 1e-6
+        for got, exp in ((cx, want[0]), (cy, want[1])):
+            d = got - exp
+            if d > tol or -d > tol:
+                return V("arc_radius-centre-on-the-wrong-side-or-distance",
+                         lambda: f"direction={direction} radius={'+' if positive else '-'}5k k={k!r} chord "
+                                 f"{chord!r}: centre offset ({cx!r}, {cy!r}), expected {want!r}")
+        if tuple(a[0]) != tuple(target):
+            return V("arc_radius-target-not-forwarded", lambda: f"{a[0]!r}")
+        reached("captured")
+        return None
+    return h
+
+
 def _make_enforce(direction):
     from gscrib.enums import Direction
 
@@ -266,6 +400,18 @@ def cells(tier):
         for n in ((1, 2) if tier == "quick" else (1, 2, 3)):
             out.append(Cell(f"polyline|{m}|points={n}", _make_polyline(rel, n), budget_s=budget,
                             must_reach=("visited",), entry="PathTracer.polyline"))
+    for rel in (False, True):
+        for n in ((2,) if tier == "quick" else (2, 3)):
+            out.append(Cell(f"spline-controls|{'rel' if rel else 'abs'}|points={n}", _make_spline(rel, n),
+                            budget_s=budget * 2, must_reach=("captured",), entry="PathTracer.spline"))
+    for direction in ("clockwise", "counter"):
+        for positive in (True, False):
+            for rel in (False, True):
+                for axis in (("+x", "-y") if tier == "quick" else ("+x", "-x", "+y", "-y")):
+                    out.append(Cell(f"arc_radius|{direction}|{'+' if positive else '-'}r|"
+                                    f"{'rel' if rel else 'abs'}|chord={axis}",
+                                    _make_arc_radius(direction, positive, rel, axis), budget_s=budget,
+                                    must_reach=("captured",), entry="PathTracer.arc_radius"))
     for d in ("clockwise", "counter"):
         out.append(Cell(f"enforce|{d}", _make_enforce(d), budget_s=budget, must_reach=("ok",),
                         entry="Direction.enforce"))
